@@ -16,7 +16,7 @@ META = {
                    "(cores, bias) are nn.ParameterList of nn.Parameter / nn.Parameter, both initialiser branches assign the same "
                    "attribute set, the weight operator is built with rows = output sizes, and dtype reaches randn and the bias.",
     "assumptions": ["variance scaling of the initialisers is not part of the statement", "autograd's chain rule (see C15)"],
-    "floors": {"E5-CHAIN": 3, "REGISTER": 8},
+    "floors": {"E5-CHAIN": 3, "REGISTER": 5},
 }
 ANCHORS = ["nn.LinearLayerTT.__init__", "nn.LinearLayerTT.forward", "_aux_ops.dense_matvec"]
 
@@ -54,7 +54,8 @@ def rule_register(model: Model):
     """On every completing path of __init__: self.cores = ParameterList([Parameter(c) for c in W.cores]) with W = randn([(out_k, in_k)...], rank,
     dtype=dtype), self.bias = Parameter(zeros(size_out, dtype=dtype)); unknown initialisers raise.  Names are resolved through the
     assignments of the path, so locals may be called anything and shared code may sit inside or after the branches."""
-    f = model.func("nn.LinearLayerTT.__init__")
+    from ..inline import inlined
+    f = inlined(model, model.func("nn.LinearLayerTT.__init__"))      # the variance / the checks may sit in a private helper
     obs = []
     k0 = "nn.LinearLayerTT.__init__:REGISTER:"
     paths = _paths(f.node.body)
